@@ -212,7 +212,16 @@ func (ck *Checker) disciplineObligations() []*Obligation {
 	{
 		ex := bcl.Func("execute")
 		exAPI := bcl.Func("Execute")
-		progClasses := map[string]bool{"E_byte": true, "E_int": true, "E_value": true, "H_lineCalc_lfs": true, "H_lineCalc_mu": false}
+		progClasses := map[string]bool{"E_byte": true, "E_int": true, "E_value": true}
+		// every field of the line table object the Prog points to, except its mutex
+		if lt := bcl.Type("lineCalc"); lt != nil {
+			lst := lt.Type().Underlying().(*types.Struct)
+			for i := 0; i < lst.NumFields(); i++ {
+				if lst.Field(i).Name() != "mu" {
+					progClasses[fieldClass(lt.Type(), i)] = true
+				}
+			}
+		}
 		if pt := bcl.Type("Prog"); pt != nil {
 			st := pt.Type().Underlying().(*types.Struct)
 			for i := 0; i < st.NumFields(); i++ {
